@@ -5,18 +5,23 @@
 package main
 
 import (
+	"encoding/json"
 	"flag"
 	"fmt"
 	"os"
 	"sort"
 
 	bft "github.com/xuperchain/xupercore/kernel/consensus/base/driver/chained-bft"
+	bftpb "github.com/xuperchain/xupercore/kernel/consensus/base/driver/chained-bft/pb"
+	"github.com/xuperchain/xupercore/kernel/network/p2p"
+	xpb "github.com/xuperchain/xupercore/protos"
 
 	"verif/harness/cbft"
 	"verif/harness/fx"
 )
 
 type sim struct {
+	node *cbft.Node // Smr level only
 	np   int
 	par  []int // par[p] for p in 1..np (index 0 unused)
 	view []int
@@ -47,7 +52,7 @@ func newSim(par []int) *sim {
 }
 
 // node builds a fresh ProposalNode for proposal p, the way a handler does for every arriving message.
-func (s *sim) node(p int) *bft.ProposalNode {
+func (s *sim) node_(p int) *bft.ProposalNode {
 	q := cbft.NewQC(idOf(p), int64(s.view[p]), idOf(s.par[p]), int64(s.view[s.par[p]]))
 	return &bft.ProposalNode{In: q}
 }
@@ -94,6 +99,9 @@ func (s *sim) project() obs {
 	t := s.tree
 	o := obs{Root: s.abs(t.GetRootQC()), High: s.abs(t.GetHighQC()), Generic: s.abs(t.GetGenericQC()),
 		Locked: s.abs(t.GetLockedQC()), Commit: s.abs(t.GetCommitQC()), Oroots: []int{}, Pview: int(s.pace.GetCurrentView())}
+	if s.node != nil {
+		o.Pview = int(s.node.Smr.GetCurrentView())
+	}
 	o.Tree, o.Otree, o.Cnt = make([]int, s.np), make([]int, s.np), make([]int, s.np)
 	for i := range o.Tree {
 		o.Tree[i], o.Otree[i] = -1, -1
@@ -127,7 +135,7 @@ func (s *sim) step(op fx.Ev) (string, error) {
 	}
 	switch op.Str("op") {
 	case "insert":
-		if err := s.tree.VerifUpdateQcStatus(s.node(p)); err != nil {
+		if err := s.tree.VerifUpdateQcStatus(s.node_(p)); err != nil {
 			return "err", nil
 		}
 	case "certify":
@@ -196,9 +204,173 @@ func replay(args []string) error {
 	return nil
 }
 
+// ---------------------------------------------------------------------------------------------
+// Smr level: the same proposals arrive as real signed p2p messages at the real handlers.
+
+const nValidators = 4
+
+func newSmrSim(par []int) *sim {
+	s := newSim(par)
+	s.node = cbft.NewNode(cbft.Member(1), cbft.Addresses(nValidators), idOf(0), 0)
+	s.tree = s.node.Tree
+	return s
+}
+
+// signs returns valid signatures of members 2..4 over id.
+func signs(id []byte, members ...int) []*bftpb.QuorumCertSign {
+	out := []*bftpb.QuorumCertSign{}
+	for _, m := range members {
+		sg, err := cbft.Crypto(cbft.Member(m)).SignVoteMsg(id)
+		if err != nil {
+			panic(err)
+		}
+		out = append(out, sg)
+	}
+	return out
+}
+
+// certOf builds the certificate of proposal q as a peer would carry it.
+func (s *sim) certOf(q int) *bft.QuorumCert {
+	c := &bft.QuorumCert{VoteInfo: &bft.VoteInfo{ProposalId: idOf(q), ProposalView: int64(s.view[q])}}
+	if q > 0 {
+		c.VoteInfo.ParentId, c.VoteInfo.ParentView = idOf(s.par[q]), int64(s.view[s.par[q]])
+		c.SignInfos = signs(idOf(q), 2, 3, 4)
+	}
+	return c
+}
+
+type smrObs struct {
+	T      obs    `json:"t"`
+	Known  []bool `json:"known"`
+	Ledger int    `json:"ledger"`
+	Nvotes []int  `json:"nvotes"`
+}
+
+func (s *sim) projectSmr() smrObs {
+	o := smrObs{T: s.project(), Ledger: int(s.node.Smr.VerifLedgerState())}
+	for p := 1; p <= s.np; p++ {
+		o.Known = append(o.Known, s.node.Smr.VerifKnowsProposal(idOf(p)))
+		o.Nvotes = append(o.Nvotes, len(s.node.Smr.VerifVotes(idOf(p))))
+	}
+	return o
+}
+
+func (s *sim) stepSmr(op fx.Ev) (string, error) {
+	p := op.Int("p")
+	if p < 0 || p > s.np {
+		return "", fmt.Errorf("proposal %d out of range", p)
+	}
+	smr := s.node.Smr
+	switch op.Str("op") {
+	case "confirm":
+		if err := smr.UpdateQcStatus(s.node_(p)); err != nil {
+			return "err", nil
+		}
+	case "propose":
+		cf, _ := op["cf"].(bool)
+		justify := s.certOf(s.par[p])
+		if cf {
+			justify.LedgerCommitInfo = &bft.LedgerCommitInfo{CommitStateId: idOf(0)}
+		}
+		jb, err := json.Marshal(justify)
+		if err != nil {
+			return "", err
+		}
+		pm, err := cbft.Crypto(s.node.Self).SignProposalMsg(&bftpb.ProposalMsg{ProposalView: int64(s.view[p]), ProposalId: idOf(p), Timestamp: int64(p), JustifyQC: jb})
+		if err != nil {
+			return "", err
+		}
+		smr.VerifHandleReceivedProposal(p2p.NewMessage(xpb.XuperMessage_CHAINED_BFT_NEW_PROPOSAL_MSG, pm, p2p.WithBCName(cbft.BCName)))
+	case "vote":
+		m := op.Int("m")
+		vb, _ := json.Marshal(&bft.VoteInfo{ProposalId: idOf(p), ProposalView: int64(s.view[p]), ParentId: idOf(s.par[p]), ParentView: int64(s.view[s.par[p]])})
+		lb, _ := json.Marshal(&bft.LedgerCommitInfo{VoteInfoHash: idOf(p)})
+		msg := p2p.NewMessage(xpb.XuperMessage_CHAINED_BFT_VOTE_MSG, &bftpb.VoteMsg{VoteInfo: vb, LedgerCommitInfo: lb, Signature: signs(idOf(p), m)}, p2p.WithBCName(cbft.BCName))
+		if err := smr.VerifHandleReceivedVoteMsg(msg); err != nil {
+			return "reject", nil
+		}
+	case "justify":
+		smr.UpdateJustifyQcStatus(s.certOf(p))
+	case "rollback":
+		if err := smr.EnforceUpdateHighQC(idOf(p)); err != nil {
+			return "err", nil
+		}
+	default:
+		return "", fmt.Errorf("unknown op %q", op.Str("op"))
+	}
+	return "ok", nil
+}
+
+func replaySmr(args []string) error {
+	fs := flag.NewFlagSet("smr", flag.ExitOnError)
+	in := fs.String("in", "", "directory of behaviours")
+	out := fs.String("out", "trace.ndjson", "ndjson trace to write")
+	fs.Parse(args)
+	behs, err := fx.LoadBehaviours(*in)
+	if err != nil {
+		return err
+	}
+	tw, err := fx.NewTraceWriter(*out)
+	if err != nil {
+		return err
+	}
+	defer tw.Close()
+	ops := 0
+	stats := map[string]int{}
+	for k, beh := range behs {
+		if len(beh) == 0 || beh[0].Str("op") != "tree" {
+			return fmt.Errorf("behaviour %d does not start with its tree", k)
+		}
+		s := newSmrSim(beh[0].Ints("par"))
+		tw.Emit(fx.Ev{"op": "tree", "tr": k, "i": 0, "par": beh[0].Ints("par"), "res": "ok", "obs": s.projectSmr()})
+		for i, op := range beh[1:] {
+			before := s.projectSmr()
+			res, err := s.stepSmr(op)
+			if err != nil {
+				return fmt.Errorf("behaviour %d step %d: %v", k, i+1, err)
+			}
+			o := s.projectSmr()
+			ev := fx.Ev{"tr": k, "i": i + 1, "res": res, "obs": o}
+			for kk, v := range op {
+				if kk != "res" {
+					ev[kk] = v
+				}
+			}
+			tw.Emit(ev)
+			ops++
+			if o.T.Root != before.T.Root {
+				stats["root_moves"]++
+			}
+			if op.Str("op") == "propose" && sum(o.T.Cnt) > sum(before.T.Cnt) {
+				stats["inserted"]++
+			}
+			if op.Str("op") == "vote" && o.T.Pview > before.T.Pview {
+				stats["quorums"]++
+			}
+			if o.T.High != before.T.High {
+				stats["high_moves"]++
+			}
+		}
+		if s.node.Net.Sent != 0 {
+			return fmt.Errorf("behaviour %d: the node sent %d messages (the driver expects none)", k, s.node.Net.Sent)
+		}
+	}
+	fmt.Printf("{\"behaviours\":%d,\"ops\":%d,\"root_moves\":%d,\"inserted\":%d,\"quorums\":%d,\"high_moves\":%d}\n",
+		len(behs), ops, stats["root_moves"], stats["inserted"], stats["quorums"], stats["high_moves"])
+	return nil
+}
+
+func sum(a []int) int {
+	t := 0
+	for _, x := range a {
+		t += x
+	}
+	return t
+}
+
 func main() {
-	if len(os.Args) < 2 || os.Args[1] != "replay" {
-		fmt.Fprintln(os.Stderr, "usage: c15 replay -in DIR -out FILE")
+	if len(os.Args) < 2 || (os.Args[1] != "replay" && os.Args[1] != "smr") {
+		fmt.Fprintln(os.Stderr, "usage: c15 replay|smr -in DIR -out FILE")
 		os.Exit(64)
 	}
 	work := os.Getenv("VERIF_WORK")
@@ -210,7 +382,11 @@ func main() {
 		defer os.RemoveAll(work)
 	}
 	fx.Init(work)
-	if err := replay(os.Args[2:]); err != nil {
+	run := replay
+	if os.Args[1] == "smr" {
+		run = replaySmr
+	}
+	if err := run(os.Args[2:]); err != nil {
 		fmt.Fprintln(os.Stderr, "c15:", err)
 		os.Exit(3)
 	}
